@@ -8,6 +8,7 @@ import ClairModel.Model.Pep440
 import ClairModel.Model.RpmPkg
 import ClairModel.Model.GoBin
 import ClairModel.Model.Jar
+import ClairModel.Model.DistScan
 
 namespace Driver.C02
 open ClairModel.Bytes ClairModel.Rfc822 ClairModel
@@ -133,6 +134,14 @@ def jarAnswer (path : String) (toks : List String) : String :=
     | _ => "bad-op"
   | _, _ => "bad-op"
 
+def optFile (w : String) : Option (Option Bytes) :=
+  if w == "absent" then some none else (toBytes w).map some
+
+def showDistRes : DistScan.Res → String
+  | .err => "err"
+  | .none => "none"
+  | .dist d => "dist " ++ ",".intercalate [hexB d.name, hexB d.did, hexB d.version, hexB d.versionId, hexB d.codeName, hexB d.prettyName, hexB d.cpe]
+
 def showErr : Err → String
   | .ok => "nil"
   | .eof => "eof"
@@ -184,6 +193,18 @@ def answer (l : String) : String :=
       | none => "bad-op"
   | "gobin" :: gv :: main :: nd :: rest => goAnswer gv main nd rest
   | "jar" :: path :: toks => jarAnswer path toks
+  | ["alpdist", a, b] => match optFile a, optFile b with
+      | some a, some b => showDistRes (DistScan.alpineScan a b)
+      | _, _ => "bad-op"
+  | ["rheldist", o, a, b] => match optFile a, optFile b with
+      | some a, some b => showDistRes (DistScan.rhelScan (o == "1") a b)
+      | _, _ => "bad-op"
+  | ["debdist", a] => match optFile a with
+      | some a => showDistRes (DistScan.debianScan a)
+      | none => "bad-op"
+  | ["ubudist", a, b] => match optFile a, optFile b with
+      | some a, some b => showDistRes (DistScan.ubuntuScan a b)
+      | _, _ => "bad-op"
   | ["reset"] => "ok"
   | _ => "bad-op"
 
